@@ -352,6 +352,30 @@ Example C08_ex_wave2_flagged :
   ser false ex_w2 [] v = Some ([0; 0; 0; 64] ++ [97; 32; 98; 0] ++ [36] ++ [0; 0] ++ [0; 0; 0; 0]).
 Proof. cbv zeta. split; vm_compute; reflexivity. Qed.
 
+(* ContextSwitch / ContextAdapter keyed by a sibling, FlagSwitch *)
+Definition ex_ctx : spec :=
+  STemplate
+    [ (0, SAdapter (ASimple (AEnum ex_enum false)) (SPrim (PI (IP false W1))));
+      (1, SCtxSwitch 0 [(Some 1%Z, SPrim (PI (IP true W2))); (None, SCStr [0] true true)]);
+      (2, SCtxAdapter 0 [(Some 7%Z, Some (AFlag ex_flags)); (None, None)] (SPrim (PI (IP false W1))));
+      (3, SFlagSwitch ex_flags (IP false W1)
+                      [(0, 1%Z, SPrim (PI (IP false W2))); (2, 64%Z, SByteArray (IP false W1))]) ] false false.
+
+Example C08_ex_ctx :
+  let v1 := VDict [(0, VInt 1); (1, VInt (-2)); (2, VInt 200); (3, VDict [(2, VBytes [9])])] in
+  (* in pod mode the key field holds a member NAME, which is no option key: both sides fall back to the default *)
+  let v7 := VDict [(0, VName 3); (1, VStr [104; 105]); (2, VInt 6); (3, VDict [(0, VInt 513); (2, VBytes [])])] in
+  wf ex_ctx = true /\ delimited ex_ctx = true /\
+  domb true false ex_ctx [] v1 = true /\ ser true ex_ctx [] v1 = Some [1; 254; 255; 200; 64; 1; 9] /\
+  domb true true ex_ctx [] v7 = true /\ ser true ex_ctx [] v7 = Some [7; 104; 105; 0; 6; 65; 1; 2; 0] /\
+  forall pod v b rest, domb true pod ex_ctx [] v = true -> ser true ex_ctx [] v = Some b ->
+                       de true pod ex_ctx [] (b ++ rest) = Some (v, rest).
+Proof.
+  cbv zeta. repeat split; try (vm_compute; reflexivity).
+  intros pod v b rest Hd Hs.
+  apply (C08_rt_delimited true pod ex_ctx [] [] v b); [reflexivity|apply agree_nil|reflexivity|exact Hd|exact Hs].
+Qed.
+
 Example C08_ex_calc_size_tuple_cstr :
   calc_size (STuple [SPrim (PI (IP false W1)); SCStr [0] true true]) = None.
 Proof. reflexivity. Qed.
